@@ -441,6 +441,9 @@ impl Prop for C13 {
       _ => panic!("unknown task {}", t),
     }
   }
+  fn cold_subs(&self) -> Vec<(&'static str, i64, i64, fn(i64) -> Vec<i64>)> {
+    vec![("hours", 0, crate::model::NDAYS as i64, |x| vec![x])]
+  }
   fn eval(&self, env: &Env, out: &mut Out, sub: &str, case: &Case) {
     match sub {
       "cyear" => self.eval_cyear(env, out, case),
